@@ -106,4 +106,11 @@ def WFSetPointControl : AcSetPointControl → Prop
 
 def WF (m : Msg) : Prop := m.ac_number < 64 ∧ WFSetPointControl m.set_point_control
 
+/-- run-time test of `WF` (see `Lemmas.At4X2C.wfBool_iff`) -/
+def wfSetPointControlBool : AcSetPointControl → Bool
+  | .value sp => decide (sp < 64)
+  | _ => true
+
+def wfBool (m : Msg) : Bool := decide (m.ac_number < 64) && wfSetPointControlBool m.set_point_control
+
 end PyAirtouch.Model.At4.X2C
